@@ -14,11 +14,11 @@ import (
 
 // method -> (path argument, home document, status of a successful answer)
 type methodInfo struct {
-	path   string
-	home   string // name in docs, or raw:<name> in rawBodies
-	ok     int
-	ms     bool // needs a multi-status
-	okCT   string
+	path string
+	home string // name in docs, or raw:<name> in rawBodies
+	ok   int
+	ms   bool // needs a multi-status
+	okCT string
 }
 
 var minfo = map[string]methodInfo{
@@ -244,7 +244,7 @@ func generate(emit func(caseIn)) {
 		sp("text/plain"), sp("text/calendar; x"), sp("text/calendar;;"), sp("text/x-vcard"), sp("text/calendar, text/vcard"), sp("")}
 	for _, m := range []string{"GetCalendarObject", "GetAddressObject"} {
 		for _, ct := range getCTs {
-			for _, rn := range []string{"ical", "vcard", "empty", "notxml", "text"} {
+			for _, rn := range []string{"ical", "vcard", "empty", "notxml", "text", "icalpanic", "icalbad"} {
 				for _, st := range []int{200, 206, 304, 404} {
 					for _, reqset := range []bool{true, false} {
 						c := base(m, st)
